@@ -693,6 +693,31 @@ example : (exampleSite.reg (.remove [] [[1], [2]])).map (·.route [[1], [2]]) =
 example : (exampleSite.reg (.addRes [[[1]]] [[9]] ⟨9, false, []⟩)).map (·.route [[1], [9]]) =
     some (some ⟨9, [], [[1], [9]]⟩) := by decide
 
+example : DictTree exampleSite := by
+  unfold exampleSite
+  refine .node (by decide) (by decide) ?_
+  intro k t hm
+  simp only [List.mem_singleton, Prod.mk.injEq] at hm
+  obtain ⟨rfl, rfl⟩ := hm
+  refine .node (by decide) (by decide) ?_
+  intro k t hm
+  simp only [List.mem_singleton, Prod.mk.injEq] at hm
+  obtain ⟨rfl, rfl⟩ := hm
+  refine .node (by decide) (by decide) ?_
+  intro k t hm
+  simp only [List.mem_singleton, Prod.mk.injEq] at hm
+  obtain ⟨rfl, rfl⟩ := hm
+  exact .leaf
+/-- the hypotheses of `C17_listed_link_routes_to_resource` are satisfiable: the root resource of
+the nested site, listed as `1/` -/
+example : Registered exampleSite [[1], []] ⟨3, false, []⟩ ∧
+    exampleSite.route [[1], []] = some ⟨3, [], [[1], []]⟩ :=
+  C17_listed_link_routes_to_resource _ _ _ _ [[1]] [] ⟨3, false, []⟩ (by decide) (by decide)
+    (List.mem_singleton.mpr rfl) (by decide) (by simp) (by decide) (by decide)
+    (by intro k' hk' _; simp [keys] at hk'; subst hk'; decide)
+/-- one filter among the query items: `obs` has no `=`, `rt=li*` is the filter -/
+example : [[111, 98, 115], [114, 116, 61, 108, 105, 42]].filterMap splitEq =
+    [(kRt, [108, 105, 42])] := by decide
 /-- listing of the example tree: full paths through the nested sites, root of `batch` as `1/` -/
 example : exampleSite.links.map (·.href) =
     [[47, 1, 47, 2], [47, 1, 47, 2], [47, 1, 47]] := by decide
